@@ -40,6 +40,30 @@ namespace c16
     return p;
   }
 
+  /// convection field with a stagnation point in a cell centre: v(x) = M (x - x_T) with x_T the vertex mean of a cell T (the image
+  /// of the reference barycentre for every cell geometry, and v o trafo is (multi)linear, so every space reproduces it there): the
+  /// streamline-diffusion parameter delta_T of that cell is defined as 0 while its neighbours have delta > 0
+  inline int stagnation_field(Tape& t, const RawMesh& rm, std::vector<Poly>& V)
+  {
+    const int dim = rm.dim, nc = (int)rm.cells.size();
+    const int cell = (nc >= 2) ? t.range(1, nc - 1) : 0;    // a cell that is not the first one visited
+    double xc[3] = {0, 0, 0}; for(int v : rm.cells[(size_t)cell]) for(int b = 0; b < dim; ++b) xc[b] += rm.vtx[(size_t)v][(size_t)b] / (double)rm.cells[(size_t)cell].size();
+    static const double mv[] = {1.0, -1.0, 0.5, 2.0, 0.0};
+    const bool rot = (dim == 2) && t.flag(1, 3);            // vortex centre: v = (-(y-yc), x-xc)
+    for(int a = 0; a < dim; ++a)
+    {
+      Poly q; q.dim = dim; double c0 = 0;
+      for(int b = 0; b < dim; ++b)
+      {
+        double m = rot ? ((a == 0 && b == 1) ? -1.0 : ((a == 1 && b == 0) ? 1.0 : 0.0)) : ((a == b) ? mv[t.range(0, 3)] : mv[t.range(0, 4)]);
+        Poly::Term tm; tm.c = m; tm.e[0] = tm.e[1] = tm.e[2] = 0; tm.e[b] = 1; q.t.push_back(tm); c0 -= m * xc[b];
+      }
+      Poly::Term t0; t0.c = c0; t0.e[0] = t0.e[1] = t0.e[2] = 0; q.t.push_back(t0);
+      V[(size_t)a] = q;
+    }
+    return cell;
+  }
+
   /// documented vector-valued operator integrand for convection field v, trial field u, test field w
   inline LD burgers_integrand(const BurgersParams& p, int dim, const std::vector<Poly>& v, const std::vector<Poly>& u, const std::vector<Poly>& w, const LD* x)
   {
@@ -113,14 +137,18 @@ namespace c16
       const int b = Tag::bdeg(simplex);
       const int need = 2 * b + ((p.beta != 0.0 || p.frechet_beta != 0.0) ? b : 0);
       const int cubdeg = std::min(cub_cap(rm), need + t.range(0, 1)); const std::string cubname = "auto-degree:" + std::to_string(cubdeg);
-      const bool exact_ok = rm.cells_affine && cubdeg >= need && p.sd_delta == 0.0;
       const bool prefill = t.flag(1, 3);
+      // stagnation class (drawn last so that earlier recorded tapes decode as before): a field that vanishes in one cell centre,
+      // mostly with streamline diffusion switched on (per-cell delta_T must be 0 there and only there)
+      int stag_cell = -1;
+      if(conv_kind == 0 && t.flag(1, 4)) { stag_cell = stagnation_field(t, rm, V); if(p.sd_delta == 0.0 && t.flag(3, 4)) { p.sd_delta = 0.5; p.sd_nu = 1.0; c.label("streamdiff:on"); } }
+      const bool exact_ok = rm.cells_affine && cubdeg >= need && p.sd_delta == 0.0;
 
       auto mesh = make_feat_mesh<MeshType>(rm); TrafoType trafo(*mesh); SpaceType space(trafo);
       c.desc.set("mesh", rm.json()); c.desc.set("space", Tag::name()); c.desc.set("dt", TN<DT>::n()); c.desc.set("sub", sn[sub]); c.desc.set("params", p.json()); c.desc.set("scale", (double)scale);
-      c.desc.set("conv", polys_json(V)); c.desc.set("u", polys_json(U)); c.desc.set("w", polys_json(W)); c.desc.set("conv_kind", conv_kind); c.desc.set("cubature", cubname); c.desc.set("prefill", prefill);
+      c.desc.set("conv", polys_json(V)); c.desc.set("u", polys_json(U)); c.desc.set("w", polys_json(W)); c.desc.set("conv_kind", conv_kind); c.desc.set("stagnation_cell", stag_cell); c.desc.set("cubature", cubname); c.desc.set("prefill", prefill);
       label_mesh(c, rm); c.label(std::string("sub:") + sn[sub]); c.label(std::string("space:") + Tag::name()); c.label(std::string("dt:") + TN<DT>::n());
-      c.label(exact_ok ? "oracle:exact" : "oracle:routes+identities"); c.label(conv_kind == 0 ? "conv:polynomial" : (conv_kind == 1 ? "conv:zero" : "conv:sol==conv"));
+      c.label(exact_ok ? "oracle:exact" : "oracle:routes+identities"); c.label(stag_cell >= 0 ? "conv:stagnation-point" : conv_kind == 0 ? "conv:polynomial" : (conv_kind == 1 ? "conv:zero" : "conv:sol==conv"));
       c.op = std::string("burgers:") + sn[sub];
       c.nontrivial = true;
       c.announce();
